@@ -702,9 +702,12 @@ def gen_limiter_scenario(rng, backend, index=None):
     scopes = rng.sample(["global", "ip", "1.1.1.1", "::1"], rng.randint(1, 3))
     if index is not None and index < len(SCOPE_SHAPES):
         scopes = SCOPE_SHAPES[index]
-    for sc in scopes:
+    for si_, sc in enumerate(scopes):
         rules[sc] = {}
-        for cmd in rng.sample(["ACCEPT", "EVENT", "REQ", "CLOSE"], rng.randint(1, 3)):
+        cmds = rng.sample(["ACCEPT", "EVENT", "REQ", "CLOSE"], rng.randint(1, 3))
+        if index is not None and index < len(SCOPE_SHAPES) and si_ == 0 and "ACCEPT" not in cmds:
+            cmds[0] = "ACCEPT"          # every shape of a rule table is also seen with a rule for new connections
+        for cmd in cmds:
             rules[sc][cmd] = ",".join(gen_rule(rng) for _ in range(rng.randint(1, 2)))
     conf = {"rate_limits": rules}
     ops = []
